@@ -409,6 +409,8 @@ func runC19(r *hx.Result, cfg hx.Config) {
 	corpus(r, drv)
 	inPackage(r, cfg, rng, drv)
 	blackBox(r, cfg, rng)
+	// access-path sweep over the pattern-selecting forms of SCAN / SEARCH (Props/C19sel.v, seeds_r3.go)
+	c19Round3(r, cfg, rng, drv)
 	// hook / channel registry size against the life-cycle model (Props/C19hk.v)
 	hooklife.RunC19(r, cfg)
 }
